@@ -93,6 +93,7 @@ class Worker:
         self.known_urls = []
         exp = ref.run_model(prog)["result"]
         self.expected_error = exp[1] if exp[0] == "err" else None
+        self.too_big = exp[0] == "toobig"
 
     def violate(self, cls, fp, detail):
         self.violations.append({"class": cls, "fingerprint": fp, "detail": detail})
@@ -164,6 +165,8 @@ class Worker:
                     self.stats["probe:cache_entries_actually_lost"] = self.stats.get("probe:cache_entries_actually_lost", 0) + 1
                 self.log.append(["fault", op["kind"]])
             elif op["op"] == "render":
+                if self.too_big:
+                    continue
                 try:
                     html = Template(emit.page_source(self.prog)).render(Context(dict(self.prog["ctx"])))
                     final = render_dependencies(str(html), type=op["type"])
